@@ -382,6 +382,16 @@ impl WorldGen {
     /// `n` metric specs over a small name space; specs sharing a name share help, label names and type.
     pub fn world(&self, rng: &mut Rng, n: usize, reserved_labels: &[String]) -> Vec<MetricSpec> {
         let mut specs: Vec<MetricSpec> = Vec::new();
+        // now and then: dozens of scalar collectors under one name (one family merged from many collectors)
+        if rng.chance(1, 40) {
+            let kind = *rng.pick(&[Kind::Gauge, Kind::IntGauge, Kind::Counter, Kind::Histogram]);
+            let cl = rng.pick(&["shard", "part"]).to_string();
+            if !reserved_labels.contains(&cl) {
+                for i in 0..(34 + rng.usize_below(40)) {
+                    specs.push(MetricSpec { kind, name: "crowd".to_string(), help: "many collectors, one family".to_string(), const_labels: vec![(cl.clone(), format!("{:03}", i))], var_labels: vec![], buckets: vec![1.0], children: self.children(rng, kind, 0) });
+                }
+            }
+        }
         let names: Vec<&str> = VALID_METRIC_NAMES.iter().copied().collect();
         let label_pool: Vec<&str> = VALID_LABEL_NAMES.iter().copied().filter(|l| !reserved_labels.iter().any(|r| r == l) && *l != "le").collect();
         for _ in 0..n {
@@ -400,6 +410,25 @@ impl WorldGen {
                     }
                     s.children = self.children(rng, s.kind, s.var_labels.len());
                     s
+                }
+                None if rng.chance(1, 25) => {
+                    // a wide vector: 9-11 variable labels, children agreeing on all but the last one or two values
+                    let kind = *rng.pick(&[Kind::CounterVec, Kind::GaugeVec, Kind::HistogramVec, Kind::IntGaugeVec]);
+                    let nvar = 9 + rng.usize_below(3);
+                    let var_labels: Vec<String> = (0..nvar).map(|i| format!("w{:02}", i)).collect();
+                    let base: Vec<String> = (0..nvar).map(|_| self.value(rng)).collect();
+                    let mut children = Vec::new();
+                    for i in 0..(3 + rng.usize_below(6)) {
+                        let mut values = base.clone();
+                        values[nvar - 1] = format!("{}{}", self.value(rng), 9 - i);
+                        if rng.chance(1, 2) {
+                            values[nvar - 2] = self.value(rng);
+                        }
+                        if !children.iter().any(|c: &ChildSpec| c.values == values) {
+                            children.push(ChildSpec { values, updates: self.updates(rng, kind) });
+                        }
+                    }
+                    MetricSpec { kind, name, help: "wide".to_string(), const_labels: vec![], var_labels, buckets: self.buckets(rng), children }
                 }
                 None => {
                     let kind = *rng.pick(&Kind::ALL);
